@@ -16,6 +16,23 @@ NOTES = ('Every check executes the implementation in /repo/src (working tree) '
          'DESIGN.md.')
 
 CHECKS = [
+    {'id': 'C09', 'engine': 'explore', 'level': 'exploration',
+     'design_ref': 'DESIGN.md §4 C09',
+     'technique': 'exhaustive small-scope enumeration of declaration chains '
+                  '(nested suites x layer/level attributes) x option vectors '
+                  'through the real discovery+filter pipeline (--list-tests) '
+                  'against a reference of the stated rules',
+     'text': 'Every chain of <=2 (thorough: 3) nested suites around a test, '
+             'each node declaring layer in {none, L1, L2, L1 as string, a '
+             'layer whose name the unit-layer regex matches} and level in '
+             '{none,-1,0,1,2,3}, the test declaring on its class or instance '
+             '(28247 chains; thorough +649728), is listed by the real runner '
+             'under 27 option vectors (thorough: all 130 combinations of 13 '
+             'level switches and 10 unit/layer switches); the listed '
+             'test->layer map must equal nearest-declaration-wins plus the '
+             'stated level and unit rules, and listing must run no code.',
+     'note': 'Levels outside -1..3 and more than two real layers are outside '
+             'the alphabet.'},
     {'id': 'C11', 'engine': 'explore', 'level': 'exploration',
      'design_ref': 'DESIGN.md §4 C11',
      'technique': 'bounded exhaustive enumeration of seeds x layer-size '
